@@ -154,7 +154,9 @@ func (p *c34Policy) Decide(in relaycore.DecisionInput) relaycore.DecisionOutput 
 		}
 		w.violation("attempt-after-success", "decide:success-in-summary:"+where, fmt.Sprintf("the machine decided to start attempt #%d although the results summary it had just read already contained %d successful result(s) (decision input: ticker=%v summary=%s, reason %q)", in.AttemptNumber+1, in.Summary.SuccessCount, in.IsTickerHedge, c34SummaryString(in.Summary), out.Reason))
 	case w.successReported:
-		w.violation("attempt-after-success", "decide:after-success-reported", fmt.Sprintf("the machine decided a new attempt after its results checker had reported the required results (summary=%s)", c34SummaryString(in.Summary)))
+		// the success was reported to the machine's reader while this decision (whose input was
+		// assembled earlier) was in flight: not a violation, the decision input did not contain it
+		r.Probe("decide_retry_raced_with_success_report")
 	}
 	if nonRetryable || w.nonRetryableProcessed {
 		w.violation("retry-after-non-retryable-error", "decide", fmt.Sprintf("the machine decided to retry although the summary shows a non-retryable node error / permanent protocol error: %s (reason %q)", c34SummaryString(in.Summary), out.Reason))
@@ -188,10 +190,15 @@ func (p *c34Policy) OnSendRelayResult(err error, isPairingListEmpty bool) relayc
 		}
 		r.OracleEvals += 3
 		if w.successReported {
-			w.violation("attempt-after-success", "send-retry:after-success-reported", "after a failed send the machine asked for another attempt although its results checker had already reported the required (successful) results")
+			// the main loop had not consumed the reader's success signal yet (it handles one event
+			// at a time): reported, not judged
+			r.Probe("send_retry_raced_with_success_report")
 		}
 		if w.nonRetryableProcessed {
-			w.violation("retry-after-non-retryable-error", "send-retry:after-stop-decision", "after a failed send the machine asked for another attempt although it had already decided to stop because of a non-retryable node error / permanent protocol error")
+			// the failed send belongs to an attempt that was already in flight when the machine
+			// decided to stop (new attempts can only come from Decide, which is judged above); the
+			// statement allows send-failure retries, so this is reported, not judged
+			r.Probe("send_retry_after_non_retryable_stop_decision")
 		}
 		if p.consec > w.cfg.SendRelayAttempts {
 			w.violation("too-many-attempts", "send-retry:beyond-limit", fmt.Sprintf("send retry after %d consecutive send failures, SendRelayAttempts=%d", p.consec, w.cfg.SendRelayAttempts))
@@ -223,10 +230,11 @@ func (c *c34Checker) GetCrossValidationParams() *common.CrossValidationParams {
 }
 func (c *c34Checker) GetResultsSummary() relaycore.ResultsSummary { return c.inner.GetResultsSummary() }
 
-// scripted checker (profile "script"): every delivered result wakes WaitForResults once
+// scripted checker (profile "script"): every delivered result is queued; WaitForResults takes one,
+// books it (only then it shows up in the summary, as with the real processor) and returns
 type c34Script struct {
 	w        *c34World
-	ev       chan struct{}
+	ev       chan int
 	ok       int
 	nodeErr  int
 	protoErr int
@@ -236,11 +244,29 @@ type c34Script struct {
 }
 
 func (c *c34Script) WaitForResults(ctx context.Context) error {
-	i, _ := simrt.Select("harness:c34-script-wait", false, simrt.RecvCase(c.ev), simrt.RecvCase(ctx.Done()))
-	if i == 0 {
-		return nil
+	i, box := simrt.Select("harness:c34-script-wait", false, simrt.RecvCase(c.ev), simrt.RecvCase(ctx.Done()))
+	if i != 0 {
+		return ctx.Err()
 	}
-	return ctx.Err()
+	kind := <-simrt.Relay(c.ev, box)
+	switch kind {
+	case c34ResOK:
+		c.ok++
+	case c34ResNodeErr:
+		c.nodeErr++
+	case c34ResNodeErrNonRetryable:
+		c.nodeErr++
+		c.nonRetry = true
+	case c34ResProtoErr:
+		c.protoErr++
+	case c34ResProtoErrPermanent:
+		c.protoErr++
+		c.perm = true
+	case c34ResEpochMismatch:
+		c.protoErr++
+		c.epoch = true
+	}
+	return nil
 }
 func (c *c34Script) required() bool {
 	if c.w.mode == relaycore.CrossValidation {
@@ -282,6 +308,7 @@ type c34World struct {
 	policy *c34Policy
 	pool   []string
 	cancel context.CancelFunc
+	ch     chan relaycore.RelayStateSendInstructions
 	ctx    context.Context
 
 	processing, relayTimeout, maxSendLat time.Duration
@@ -361,25 +388,7 @@ func (w *c34World) respond(name, provider string, kind int, latency time.Duratio
 		r.Probe("result_after_final")
 	}
 	if w.script != nil {
-		c := w.script
-		switch kind {
-		case c34ResOK:
-			c.ok++
-		case c34ResNodeErr:
-			c.nodeErr++
-		case c34ResNodeErrNonRetryable:
-			c.nodeErr++
-			c.nonRetry = true
-		case c34ResProtoErr:
-			c.protoErr++
-		case c34ResProtoErrPermanent:
-			c.protoErr++
-			c.perm = true
-		case c34ResEpochMismatch:
-			c.protoErr++
-			c.epoch = true
-		}
-		c.ev <- struct{}{}
+		w.script.ev <- kind
 	} else {
 		res := common.RelayResult{
 			Request:      &pairingtypes.RelayRequest{RelaySession: &pairingtypes.RelaySession{}, RelayData: &pairingtypes.RelayPrivateData{}},
@@ -512,6 +521,7 @@ func (w *c34World) consumer() {
 	} else {
 		ch, err = w.sm.GetRelayTaskChannel()
 	}
+	w.ch = ch
 	if err != nil {
 		w.violation("harness-setup", "channel", err.Error())
 		return
@@ -600,6 +610,32 @@ func (w *c34World) drainAfterFinal(ch chan relaycore.RelayStateSendInstructions)
 	}
 }
 
+// consumerStuckInUpdateBatch recognises the hang where the machine has emitted its final
+// instruction and returned, and the consumer blocks forever in UpdateBatch because nobody drains
+// batchUpdate any more.
+func (w *c34World) consumerStuckInUpdateBatch(s *simrt.Sched) bool {
+	stuck := false
+	mainAlive := false
+	for _, l := range s.Leftover() {
+		if strings.Contains(l, ":consumer:") && strings.Contains(l, "unified_relay_state_machine.go:409") {
+			stuck = true
+		}
+		if strings.Contains(l, "unified_relay_state_machine.go:239:") {
+			mainAlive = true
+		}
+	}
+	if !stuck || mainAlive {
+		return false
+	}
+	pending := "none"
+	if w.ch != nil && len(w.ch) > 0 {
+		x := <-w.ch
+		pending = fmt.Sprintf("done=%v err=%s", x.Done, c34Short(x.Err))
+	}
+	w.violation("consumer-stuck-in-UpdateBatch", "after-machine-stopped", fmt.Sprintf("the machine's main loop has returned (pending instruction in the relay task channel: %s) and the consumer is blocked forever in UpdateBatch: batchUpdate (capacity MaxRetries=%d) is full and nobody reads it any more; %d send instructions, %d sends ok, %d failed", pending, w.cfg.MaxRetries, w.attempts, w.sendOK, w.sendFail))
+	return true
+}
+
 func runC34(r *simrt.Run) {
 	c34Setup()
 	if c34ParserErr != nil || c34Parser == nil {
@@ -619,8 +655,15 @@ func runC34(r *simrt.Run) {
 			w.cv.MaxParticipants = 1 + r.Draw("cfg", 4)
 			w.cv.AgreementThreshold = 1 + r.Draw("cfg", w.cv.MaxParticipants)
 		}
+		// batchUpdate's capacity is MaxRetries: with MaxRetries <= 3 the consumer's UpdateBatch can
+		// block forever once the main loop has returned (finding kept under profile "lowmax", not
+		// reachable with the consumer's constant 10); the default profiles stay above that
+		maxRetries := 4 + r.Draw("cfg", 7)
+		if r.Profile == "lowmax" {
+			maxRetries = 1 + r.Draw("cfg", 3)
+		}
 		w.cfg = relaycore.StateMachineConfig{
-			MaxRetries:            1 + r.Draw("cfg", 5),
+			MaxRetries:            maxRetries,
 			SendRelayAttempts:     r.Draw("cfg", 4),
 			EnableTimeoutPriority: r.Chance("cfg", 1, 2),
 		}
@@ -638,7 +681,7 @@ func runC34(r *simrt.Run) {
 			SendRelayAttempts:       w.cfg.SendRelayAttempts,
 		}
 		w.relayTimeout = time.Duration(10+r.Draw("cfg", 190)) * time.Millisecond
-		w.processing = w.relayTimeout*time.Duration(1+r.Draw("cfg", 12)) + time.Duration(r.Draw("cfg", 50))*time.Millisecond
+		w.processing = w.relayTimeout*time.Duration(1+r.Draw("cfg", 16)) + time.Duration(r.Draw("cfg", 50))*time.Millisecond
 		w.maxSendLat = time.Duration(1+r.Draw("cfg", 2*int(w.relayTimeout/time.Millisecond))) * time.Millisecond
 		w.parseFails = r.Chance("cfg", 1, 4)
 		nPool := 1 + r.Draw("cfg", 8)
@@ -675,7 +718,7 @@ func runC34(r *simrt.Run) {
 		w.sm = sm
 		rrm := &lavaprotocol.RelayRetriesManager{}
 		if r.Profile == "script" {
-			w.script = &c34Script{w: w, ev: make(chan struct{}, 4096)}
+			w.script = &c34Script{w: w, ev: make(chan int, 4096)}
 			sm.SetResultsChecker(&c34Checker{w: w, inner: w.script})
 			sm.SetRelayRetriesManager(rrm)
 		} else {
@@ -693,6 +736,9 @@ func runC34(r *simrt.Run) {
 		if !s.Quiescent {
 			r.Probe("not_quiescent")
 			r.Logf("run ended without quiescence: horizon=%v steps=%v leftover=%v", s.HorizonHit, s.StepsHit, s.Leftover())
+			if !w.finalSeen && w.consumerStuckInUpdateBatch(s) {
+				return
+			}
 			if !w.finalSeen {
 				w.violation("no-final-instruction", "not-quiescent", fmt.Sprintf("the run ended (horizon=%v steps=%v) without a final instruction", s.HorizonHit, s.StepsHit))
 			}
@@ -750,7 +796,7 @@ func init() {
 		NonTrivial: func(r *simrt.Run) bool {
 			return (r.Ops["final:ok"]+r.Ops["final:error"]) == 1 && (r.Ops["send:ok"]+r.Ops["send:failed"]) >= 1 && r.Switches >= 30
 		},
-		Rule:    "one relay per run: the harness plays RPCConsumerServer.ProcessRelaySend (reads the relay task channel; per send instruction plays sendRelayToProvider: TryLockSelection, tape-chosen GetSessions latency, then AddUsed+UpdateBatch(nil) or a generic / pairing-list-empty failure + UpdateBatch(err); cancels the context after the final instruction) and the providers (one task per session: after a tape-chosen latency - ms, around the ticker period, exact multiples of it, or beyond the processing timeout - RemoveUsed and a result: success, node error retryable / non-retryable, protocol error retryable / permanent (unsupported method) / epoch mismatch). Modes Stateless / Stateful (POST /cosmos/tx/v1beta1/txs) / CrossValidation (headers, 1-4 participants); per-run config MaxRetries 1-5, SendRelayAttempts 0-3, circuit breaker on/off + threshold, timeout priority on/off, RelayRetryLimit 0-4, ticker 10-200 ms, processing timeout 1-13 ticker periods, provider pool 1-8 (exhaustion gives PairingListEmptyError), ParseRelay (archive upgrade) succeeding or failing. Profile proc: real RelayProcessor as results checker; profile script: scripted checker (each result wakes WaitForResults once). Every lock/atomic/channel/select/sleep/go of relaycore, relaypolicy and UsedProviders is a tape-driven scheduling point; selects with several ready cases are resolved from the tape. Non-trivial = exactly one final instruction, >=1 send and >=30 context switches; distinct = (op,outcome,fault) sequence x context-switch sequence",
+		Rule:    "one relay per run: the harness plays RPCConsumerServer.ProcessRelaySend (reads the relay task channel; per send instruction plays sendRelayToProvider: TryLockSelection, tape-chosen GetSessions latency, then AddUsed+UpdateBatch(nil) or a generic / pairing-list-empty failure + UpdateBatch(err); cancels the context after the final instruction) and the providers (one task per session: after a tape-chosen latency - ms, around the ticker period, exact multiples of it, or beyond the processing timeout - RemoveUsed and a result: success, node error retryable / non-retryable, protocol error retryable / permanent (unsupported method) / epoch mismatch). Modes Stateless / Stateful (POST /cosmos/tx/v1beta1/txs) / CrossValidation (headers, 1-4 participants); per-run config MaxRetries 4-10 (1-3 only under the extra profile lowmax), SendRelayAttempts 0-3, circuit breaker on/off + threshold, timeout priority on/off, RelayRetryLimit 0-4, ticker 10-200 ms, processing timeout 1-17 ticker periods, provider pool 1-8 (exhaustion gives PairingListEmptyError), ParseRelay (archive upgrade) succeeding or failing. Profile proc: real RelayProcessor as results checker; profile script: scripted checker (each result wakes WaitForResults once). Every lock/atomic/channel/select/sleep/go of relaycore, relaypolicy and UsedProviders is a tape-driven scheduling point; selects with several ready cases are resolved from the tape. Non-trivial = exactly one final instruction, >=1 send and >=30 context switches; distinct = (op,outcome,fault) sequence x context-switch sequence",
 		Real:    []string{"protocol/relaycore UnifiedRelayStateMachine (main loop, reader, validateReturnCondition goroutines), RelayState / archive mutation, RelayProcessor + ResultsManager (profile proc) (instrumented copies through the build overlay)", "protocol/relaypolicy Policy (Decide, OnSendRelayResult) behind a pass-through recorder", "protocol/lavasession UsedProviders (instrumented)", "protocol/chainlib REST chain parser + LAV1 spec, chainlib.ShouldRetryError / IsUnsupportedMethodError classification, cross-validation header parsing"},
 		Stubbed: []string{"RPCConsumerServer.ProcessRelaySend / sendRelayToProvider and ConsumerSessionManager.GetSessions (harness task following their call order)", "providers and transport (result tasks)", "RelaySenderInf: timeouts from the tape, ParseRelay rebuilding the message with the requested extensions or failing", "ResultsCheckerInf scripted in profile script", "RelayRetriesManager with a nil ristretto cache (consumer side only writes)", "consistency nil, metrics no-op, analytics nil", "clock: synctest fake time"},
 		Assume:  []string{"code between two instrumented synchronisation points is atomic in the simulation (every simulated schedule is a real schedule, not vice versa)", "the consumer handles one instruction at a time and calls UpdateBatch after each, as ProcessRelaySend does", "\"after a successful result\" is judged from the machine's own inputs: the results summary handed to Policy.Decide, or HasRequiredNodeResults having returned true to the machine's reader; \"after a non-retryable error\" from a previous Decide that saw the flag; results still queued in the processor's channel do not count", "attempt limits: a Decide may start an attempt only while the batch number it reads is below MaxRetries; a send-failure retry only while the consecutive failures it was told about are <= SendRelayAttempts; the literal total MaxRetries+SendRelayAttempts is reported as a probe only", "the final instruction must arrive within processing timeout + 10 x the harness' maximum send latency + 200 ms of fake time"},
